@@ -24,14 +24,14 @@ CLAIMED = {
          "per-request bound and linear total are theorems for all inputs (the total under the decidable hypothesis lin_b, evaluated on the corpus); refuted on the F15 class; bytes per element are outside the model (K3a)", "DESIGN.md 7 C09"),
  "C10": ("Coq theorems over Runtime.v (reader contracts for all n, r, max; all 2^32 boolean words) + K3 exhaustive grid correspondence with header.rs + independent contract oracle",
          "theorems quantify over every buffer, length and maximum; the model of header.rs is tied to the code on the exhaustive (n, r, max) grid", "DESIGN.md 7 C10"),
- "C11": ("Coq: C11_ast_reorder / C11_spec_reorder -- for EVERY permutation of the declarations (distinct names) the constant and type indexes are the very same key-sorted lists and the generic set is the same (Reorder.v; via C13 and C12_walk); source scan for nondeterminism; real generator in fresh processes / shared Generator; random layouts, every trivia class at every token gap, cross-reference families in all orders, compared item by item",
-         "order independence of the whole Ast is a theorem at tree level; layout independence (text level) and process-level determinism are observed", "DESIGN.md 7 C11"),
- "C12": ("Coq: C12_walk / C12_ast / C12_source_tie -- for EVERY declaration list (any number of items, fields, fall-through groups) the walker yields exactly the declared items and every type/constant/enum member is retrievable by name, generics = opaque reachability; K1 (model front end = real pest + Ast::new), K5 (Source.tree_of = erased parse tree and Ast of item_of = real Ast per generated list); independent reference AST from a random declaration model under random layout",
-         "tree-level theorem for all declaration lists; the text-to-tree step (PEG on every layout) is checked per spec by K1/K5, not proved: PARTIAL there", "DESIGN.md 7 C12"),
+ "C11": ("Coq: C11_ast_reorder / C11_spec_reorder -- for EVERY permutation of the declarations (distinct names) the constant and type indexes are the very same key-sorted lists and the generic set is the same (Reorder.v; via C13 and C12_walk); C11_layout_independent(_full) (TextProofs.v/TextTie.v): any two layouts -- white space and comments between the tokens, unboundedly -- of one declaration list are accepted by the PEG of the regenerated grammar and have the same Ast, its decidable premise evaluated on every (base, layout) pair the check compares; source scan for nondeterminism; real generator in fresh processes / shared Generator; random layouts, every trivia class at every token gap, cross-reference families in all orders, compared item by item",
+         "order independence (tree level) and layout independence (text level, model PEG on the regenerated grammar) are theorems; that pest behaves like the model PEG (K1) and process-level determinism are observed", "DESIGN.md 0.8, 7 C11"),
+ "C12": ("Coq: C12_walk / C12_ast / C12_source_tie -- for EVERY declaration list (any number of items, fields, fall-through groups) the walker yields exactly the declared items and every type/constant/enum member is retrievable by name, generics = opaque reachability; C12_text_to_tree / C12_text_to_ast (TextProofs.v: induction over the declaration list against the PEG interpreter on the regenerated grammar) -- EVERY text that reads as a declaration list (any layout, comments included) is accepted whole, its tree erases to tree_of ds and its Ast is the Ast of the declared items; reads_as evaluated on every K5 text; K1 (model front end = real pest + Ast::new), K5 (Source.tree_of = erased parse tree and Ast of item_of = real Ast per generated list); independent reference AST from a random declaration model under random layout",
+         "text-to-Ast theorem for all layouts of all declaration lists of the modelled surface syntax; that pest and the real walker behave like their models is checked per spec by K1/K5", "DESIGN.md 0.8, 7 C12"),
  "C13": ("Coq: C13_reach -- for ANY item list, name in generic index iff opaque reachable (soundness by invariant, completeness by closedness of the fixpoint), C13_fuel, C13_emitted_*; exhaustive graphs k<=2, sampled k=3, chains of depth >= 12",
          "full theorem for all dependency graphs, orders, cycles; model tied by K1 on Ast::generics()", "DESIGN.md 7 C13"),
- "C14": ("Coq: C14_front_total (EVERY declaration list meeting decl_ok: Ast::new is Ok or panics at the enum-value / duplicate-constant sites), C14_emitters_panic_site (every Ast: the emitters' only panic), C14_reject (every text the regenerated grammar rejects => Err), constructor totality; K1/K2 outcome classes and panic sites (file granularity) on hostile and mutated texts",
-         "panic sites are explicit outcomes of the model; trees outside decl_ok and the text-to-tree step by K1 only: PARTIAL there", "DESIGN.md 7 C14"),
+ "C14": ("Coq: C14_every_accepted_text / C14_every_text (Derive.v: the PEG interpreter returns derivations, for any grammar; FrontAll.v: on every derivation of item of the regenerated grammar the walker, constructors and constant index return Ok or panic at one of four recorded sites, never at the unreachable!/unwrap sites); C14_front_total (EVERY declaration list meeting decl_ok: Ast::new is Ok or panics at the enum-value / duplicate-constant sites), C14_emitters_panic_site (every Ast: the emitters' only panic), C14_reject (every text the regenerated grammar rejects => Err), constructor totality; K1/K2 outcome classes and panic sites (file granularity) on hostile and mutated texts",
+         "for every text the model of Ast::new / generate returns Ok, Err or a recorded panic (theorem); that pest, the walker and the emitters behave like their models is K1/K2; native resource exhaustion (F16) by probe", "DESIGN.md 0.8, 7 C14"),
  "C15": ("Coq: C15_* -- main.rs as a function of args, file system and generate: usage/exit 1, all-ok output in order/exit 0, first failure prefix/non-zero; binary built from /repo run on argument lists",
          "theorem for every file system and library behaviour; the binary is compared with the model instantiated with the library's own generate", "DESIGN.md 7 C15"),
 }
